@@ -292,6 +292,20 @@ def big_body(rng, n):
     pat = bytes(rng.randrange(256) for _ in range(rng.choice([1, 2, 4, 8])))
     return (pat * (n // len(pat) + 1))[:n]
 
+def layout(rng, body):
+    """wire form of a chunked body: the generator's random layout; a few large chunks for large bodies
+    (the models' slicing is linear in the remaining length per chunk: thousands of tiny chunks of a 256 KiB body
+    would only measure Coq's patience)"""
+    if len(body or b'') <= 4096:
+        return H.chunk_layout(rng, body or b'')[0]
+    out, i = b'', 0
+    while i < len(body):
+        k = min(len(body) - i, rng.choice([65536, 100000, 131072]))
+        out += (b'%X' if rng.random() < 0.3 else b'%x') % k + rng.choice([b'', b';big=1']) + b'\r\n' + body[i:i + k] + b'\r\n'
+        i += k
+    return out + b'0\r\n\r\n'
+
+
 def gen_body(rng, allow_big=False):
     r = rng.random()
     if allow_big:
@@ -333,7 +347,7 @@ def gen_req_args(rng, big=False):
     if r < 0.2:
         # chunked: the caller supplies the encoded body
         hs.insert(rng.randint(0, len(hs)), (spell(rng, b'Transfer-Encoding'), rng.choice([b'chunked', b'Chunked', b'CHUNKED'])))
-        body = H.chunk_layout(rng, body or b'')[0]
+        body = layout(rng, body or b'')
     elif r < 0.45 and body:
         # caller already put a Content-Length under some spelling: the builder must overwrite it in place
         hs.insert(rng.randint(0, len(hs)), (spell(rng, b'Content-Length'), rng.choice([b'%d' % len(body), b'0', b'999'])))
@@ -361,7 +375,7 @@ def gen_resp_args(rng, big=False):
     r = rng.random()
     if r < 0.2 and body is not None and not (status < 200 or status in (204, 304)):
         hs.insert(rng.randint(0, len(hs)), (spell(rng, b'Transfer-Encoding'), rng.choice([b'chunked', b'Chunked'])))
-        body = H.chunk_layout(rng, body)[0]
+        body = layout(rng, body)
     elif r < 0.45:
         hs.insert(rng.randint(0, len(hs)), (spell(rng, b'Content-Length'), rng.choice([b'%d' % len(body or b''), b'0', b'7'])))
         if nocl and body:
@@ -438,20 +452,20 @@ def gen_wire(rng, kind=None):
 def generate(rng, tier):
     quick = tier != 'thorough'
     cases = []
-    n = 100 if quick else 2500
+    n = 80 if quick else 2500
     for i in range(n):
-        a = gen_req_args(rng, big=(i % (60 if quick else 200) == 7))
+        a = gen_req_args(rng, big=(i % (40 if quick else 200) == 7))
         cases.append(dict(kind='req', args=a, wf=True))
     for i in range(n):
-        a = gen_resp_args(rng, big=(i % (60 if quick else 200) == 9))
+        a = gen_resp_args(rng, big=(i % (40 if quick else 200) == 9))
         cases.append(dict(kind='resp', args=a, wf=True))
-    for i in range(40 if quick else 1000):
+    for i in range(30 if quick else 1000):
         if rng.random() < 0.5:
             cases.append(dict(kind='req', args=damage_args(rng, gen_req_args(rng), 'req'), wf=False))
         else:
             cases.append(dict(kind='resp', args=damage_args(rng, gen_resp_args(rng), 'resp'), wf=False))
     # rebuild of parsed messages
-    for i in range(110 if quick else 3000):
+    for i in range(90 if quick else 3000):
         d = gen_wire(rng)
         opts = dict(disable=[], for_proxy=False, host=None)
         r = rng.random()
@@ -472,14 +486,14 @@ def generate(rng, tier):
         cases.append(dict(kind='rebuild', ptype=pt_, raw=head + b'%x\r\n' % nbig + bb + b'\r\n0\r\n\r\n',
                           opts=dict(disable=[], for_proxy=False, host=None), wf=True, fp=False,
                           meta=dict(framing='chunked', body=bb, nheaders=2 if pt_ == 1 else 1)))
-    for i in range(45 if quick else 1200):
+    for i in range(40 if quick else 1200):
         d = H.gen_message(rng)
         raw = mutate(rng, d['raw'])
         if rng.random() < 0.3: raw = mutate(rng, raw)
         if not raw: continue
         cases.append(dict(kind='rebuild', ptype=d['ptype'], raw=raw, opts=dict(disable=[], for_proxy=rng.random() < 0.2, host=None), wf=False, meta=None))
     # update_body
-    for i in range(50 if quick else 1200):
+    for i in range(40 if quick else 1200):
         d = gen_wire(rng)
         if d['framing'] == 'none' and rng.random() < 0.7:
             continue
@@ -491,7 +505,7 @@ def generate(rng, tier):
         cases.append(dict(kind='update', ptype=d['ptype'], raw=raw, new_body=nb, ctype=rng.choice([b'application/json', b'text/plain']),
                           meta=dict(framing=d['framing'], ce=ce)))
     # chunked streams for the reference decoder
-    for i in range(60 if quick else 1500):
+    for i in range(50 if quick else 1500):
         body = rng.choice([b'', H.rbody(rng, rng.choice([1, 3, 17, 80]))])
         wire, _ = H.chunk_layout(rng, body)
         tail = rng.choice([b'', b'', b'xyz', b'\r\n', b'0\r\n\r\n', b'GET / HTTP/1.1\r\n\r\n'])
@@ -499,7 +513,7 @@ def generate(rng, tier):
         if rng.random() < 0.6:
             cases.append(dict(kind='dechunk', raw=mutate(rng, wire + tail), meta=None))
     # to_chunks
-    for i in range(30 if quick else 400):
+    for i in range(25 if quick else 400):
         body = rng.choice([b'', H.rbody(rng, rng.randint(1, 70))])
         cases.append(dict(kind='tochunks', body=body, k=rng.choice([1, 2, 3, 7, 15, 16, 17, 64, 255, 256, 4096, 131072])))
     cases.append(dict(kind='tochunks', body=b'abc', k=0))
